@@ -118,3 +118,54 @@ func init() {
 	addControl(control{Prop: "C11", Name: "has-via-getfield", Rule: "R11a", Kind: "refactor", Quick: true,
 		File: "ucfg.go", Old: "	p := parsePathIdx(name, idx, opts)\n	return p.Has(c, opts)\n}", New: "	p := parsePathIdx(name, idx, opts)\n	ok, err := p.Has(c, opts)\n	if err != nil {\n		return false, err\n	}\n	return ok, nil\n}"})
 }
+
+func init() {
+	// ---------------- C08 ----------------
+	addControl(control{Prop: "C08", Name: "eval-scope-removed", Rule: "R08d", Kind: "mutant", Quick: true,
+		File: "variables.go", Old: "	parentFields := opts.activeFields\n	opts.activeFields = newFieldSet(parentFields)\n	defer func() { opts.activeFields = parentFields }()\n\n	v, err := r.resolve(cfg, opts)", New: "	v, err := r.resolve(cfg, opts)", Expect: "R08d/(*ucfg.reference).eval/resolve inside scope"})
+	addControl(control{Prop: "C08", Name: "alt-scope-closed-too-late-removed", Rule: "R08d", Kind: "mutant",
+		File: "variables.go", Old: "	parentFields := opts.activeFields\n	opts.activeFields = newFieldSet(parentFields)\n	tmp, err := ref.resolve(cfg, opts)\n	opts.activeFields = parentFields\n", New: "	tmp, err := ref.resolve(cfg, opts)\n", Expect: "R08d/(*ucfg.expansionAlt).eval/resolve inside scope"})
+	addControl(control{Prop: "C08", Name: "struct-fields-share-one-set", Rule: "R08d", Kind: "mutant", Quick: true,
+		File: "reify.go", Old: "			opts.activeFields = newFieldSet(parentFields)\n			fInfo, skip, err := accessField(to, i, opts)", New: "			fInfo, skip, err := accessField(to, i, opts)", Expect: "R08d/ucfg.reifyStruct/per-child scope"})
+	addControl(control{Prop: "C08", Name: "list-elements-share-one-set", Rule: "R08d", Kind: "mutant",
+		File: "reify.go", Old: "			opts.opts.activeFields = newFieldSet(parentFields)\n			v, err := reifyMergeValue(opts, to.Index(idx), arr[idx-start])", New: "			v, err := reifyMergeValue(opts, to.Index(idx), arr[idx-start])", Expect: "R08d/ucfg.reifyDoArray/per-child scope"})
+	addControl(control{Prop: "C08", Name: "flatten-recurses-through-public-method", Rule: "R08c", Kind: "mutant", Quick: true,
+		File: "ucfg.go", Old: "return append(keys, subcfg.flattenedKeys(opts)...)", New: "return append(keys, subcfg.FlattenedKeys(PathSep(opts.pathSep))...)", Expect: "R08c/(*ucfg.Config).FlattenedKeys"})
+	addControl(control{Prop: "C08", Name: "unguarded-lookup-in-alternative", Rule: "R08a", Kind: "mutant", Quick: true,
+		File: "variables.go", Old: "	tmp, err := ref.resolve(cfg, opts)\n	opts.activeFields = parentFields\n", New: "	tmp, err := ref.Path.GetValue(cfgRoot(cfg), opts)\n	opts.activeFields = parentFields\n", Expect: "R08a/(*ucfg.expansionAlt).eval"})
+	addControl(control{Prop: "C08", Name: "cycle-reported-as-missing", Rule: "R08b", Kind: "mutant",
+		File: "variables.go", Old: "		return nil, raiseCyclicErr(r.Path.String())", New: "		return nil, raiseMissing(cfg, r.Path.String())", Expect: "R08b/(*ucfg.reference).resolveRef/re-entry is an error"})
+	addControl(control{Prop: "C08", Name: "sub-configs-cached", Rule: "R08e", Kind: "mutant",
+		File: "types.go", Old: "func (c cfgSub) canCache() bool                     { return false }", New: "func (c cfgSub) canCache() bool                     { return true }", Expect: "R08e/ucfg.cfgSub"})
+	addControl(control{Prop: "C08", Name: "primitive-scope-not-restored", Rule: "R08d", Kind: "mutant",
+		File: "reify.go", Old: "	opts.opts.activeFields = previous\n\n	// try primitive conversion", New: "	// try primitive conversion", Expect: "R08d/ucfg.doReifyPrimitive/open restored"})
+	addControl(control{Prop: "C08", Name: "chain-cut-in-reify", Rule: "R08f", Kind: "mutant",
+		File: "types.go", Old: "		m := make([]interface{}, len(arr))\n		for i, v := range arr {\n			opts.activeFields = newFieldSet(parentFields)", New: "		m := make([]interface{}, len(arr))\n		for i, v := range arr {\n			opts.activeFields = newFieldSet(nil)", Expect: "R08f/(ucfg.cfgSub).reify"})
+	addControl(control{Prop: "C08", Name: "no-resolver-means-empty", Rule: "R08g", Kind: "mutant", Quick: true,
+		File: "variables.go", Old: "	var err error = ErrMissing\n", New: "	var err error\n", Expect: "R08g/(*ucfg.reference).resolveEnv/unresolved is an error"})
+	addControl(control{Prop: "C08", Name: "has-ignores-parent", Rule: "R08b", Kind: "mutant",
+		File: "fieldset.go", Old: "	if _, exists = s.fields[name]; !exists && s.parent != nil {\n		exists = s.parent.Has(name)\n	}\n	return", New: "	_, exists = s.fields[name]\n	return", Expect: "R08b/(*ucfg.fieldSet).Has"})
+	addControl(control{Prop: "C08", Name: "eval-scope-with-explicit-restores", Rule: "R08d", Kind: "refactor", Quick: true,
+		File: "variables.go",
+		Old:  "	defer func() { opts.activeFields = parentFields }()\n\n	v, err := r.resolve(cfg, opts)\n	if err != nil {\n		return \"\", err\n	}\n	if v == nil {\n		return \"\", fmt.Errorf(\"can not resolve reference: %v\", r.Path)\n	}\n	return v.toString(opts)",
+		New:  "	v, err := r.resolve(cfg, opts)\n	if err != nil {\n		opts.activeFields = parentFields\n		return \"\", err\n	}\n	if v == nil {\n		opts.activeFields = parentFields\n		return \"\", fmt.Errorf(\"can not resolve reference: %v\", r.Path)\n	}\n	s, err := v.toString(opts)\n	opts.activeFields = parentFields\n	return s, err"})
+}
+
+func init() {
+	// ---------------- C02 ----------------
+	addControl(control{Prop: "C02", Name: "eager-copy-of-dynamic-values", Rule: "R02a", Kind: "mutant", Quick: true,
+		File: "types.go", Old: "	return newDyn(c, d.meta(), d.dyn)\n}", New: "	if v, err := d.getValue(makeOptions(nil)); err == nil && v != nil {\n		return v.cpy(c)\n	}\n	return newDyn(c, d.meta(), d.dyn)\n}", Expect: "R02a/(*ucfg.cfgDynamic).cpy"})
+	addControl(control{Prop: "C02", Name: "varexp-gate-removed", Rule: "R02b", Kind: "mutant", Quick: true,
+		File: "merge.go", Old: "	if !opts.varexp {\n		return newString(ctx, opts.meta, str), nil\n	}\n", New: "", Expect: "R02b/ucfg.normalizeString"})
+	addControl(control{Prop: "C02", Name: "env-first-to-last", Rule: "R02e", Kind: "mutant",
+		File: "variables.go", Old: "		cfg = env[len(env)-1]\n		env = env[:len(env)-1]", New: "		cfg = env[0]\n		env = env[1:]", Expect: "R02e/(*ucfg.reference).resolveRef/Env last-to-first"})
+	addControl(control{Prop: "C02", Name: "resolvers-first-to-last", Rule: "R02e", Kind: "mutant",
+		File: "variables.go", Old: "for i := len(opts.resolvers) - 1; i >= 0; i-- {", New: "for i := 0; i < len(opts.resolvers); i++ {", Expect: "R02e/(*ucfg.reference).resolveEnv/resolvers last-to-first"})
+	addControl(control{Prop: "C02", Name: "resolvers-before-tree-on-cycle", Rule: "R02e", Kind: "mutant",
+		File: "variables.go", Old: "	v, err := r.resolveRef(cfg, opts)\n	if v != nil || criticalResolveError(err) {\n		return v, err\n	}\n\n	previousErr := err\n\n	s, _, err := r.resolveEnv(cfg, opts)", New: "	v, err := r.resolveRef(cfg, opts)\n	if v != nil {\n		return v, err\n	}\n\n	previousErr := err\n\n	s, _, err := r.resolveEnv(cfg, opts)", Expect: "R02e/(*ucfg.reference).resolve/tree before resolvers"})
+	addControl(control{Prop: "C02", Name: "expansion-memoises-its-path", Rule: "R02c", Kind: "mutant",
+		File: "variables.go", Old: "	ref := newReference(parsePathWithOpts(path, opts))\n	return ref.eval(cfg, opts)", New: "	ref := newReference(parsePathWithOpts(path, opts))\n	e.pathSep = opts.pathSep\n	return ref.eval(cfg, opts)", Expect: "R02c/(*ucfg.expansionSingle).eval"})
+	addControl(control{Prop: "C02", Name: "gate-written-positively", Rule: "R02b", Kind: "refactor", Quick: true,
+		File: "merge.go", Old: "	if !opts.varexp {\n		return newString(ctx, opts.meta, str), nil\n	}\n\n	varexp, err := parseSplice(str, opts.pathSep, opts.maxIdx, opts.enableNumKeys, opts.escapePath)\n	if err != nil {\n		return nil, raiseParseSplice(ctx, opts.meta, err)\n	}\n",
+		New: "	var varexp varEvaler\n	if opts.varexp {\n		var err error\n		varexp, err = parseSplice(str, opts.pathSep, opts.maxIdx, opts.enableNumKeys, opts.escapePath)\n		if err != nil {\n			return nil, raiseParseSplice(ctx, opts.meta, err)\n		}\n	} else {\n		return newString(ctx, opts.meta, str), nil\n	}\n"})
+}
